@@ -252,3 +252,12 @@ for _b in ('000', '001', '010', '011', '100', '101', '110', '111'):
     for _base in (task, task2, init, exit_):
         _f = _variant(_base, _b)
         globals()[_f.__name__] = _f
+
+
+def quick(x):
+    return x
+
+
+def gate(seconds):
+    time.sleep(seconds)
+    return -1
